@@ -346,7 +346,17 @@ def generate(plan) -> None:
     if sc == "restore":
         from . import state_restore
 
-        return state_restore.generate(plan, build_history)
+        state_restore.generate(plan, build_history)
+        # (own stream) an enforced known_list: every device of the history, plus a class-less 18: entry that is not the dongle in use
+        # (a spare stick the user once listed); the dongle itself is learned from its signature
+        if plan.rng("gen/kl").random() < 0.15 and not k["eavesdrop"]:
+            ids = set()
+            for o in plan.d["ops"]:
+                if o["op"] == "rx":
+                    f = o["f"]
+                    ids |= {x for x in (f[7:16], f[17:26], f[27:36]) if x[2:3] == ":" and x[:2] not in ("--", "63") and x != "18:000730"}
+            k["known_list"] = sorted(ids - {GID}) + ["18:199998"]
+        return
     if sc == "config":
         k["config_schema"] = gen_schema(r, k["max_zones"])
         k["eavesdrop"] = r.random() < 0.3
@@ -595,6 +605,9 @@ async def start_gateway(ctx, k, **extra):
            "max_zones": k("max_zones", 12)}
     if k("read_only"):
         cfg["disable_sending"] = True
+    if k("known_list"):
+        cfg["enforce_known_list"] = True
+        extra = {**extra, "known_list": {i: {} for i in k("known_list")}}
     gwy = Gateway("/dev/sim0", config=cfg, **extra)
     return gwy, ser
 
